@@ -53,6 +53,23 @@ func sweepOps() []op {
 		op{Kind: "call", From: "C", To: "store", Amt: "3c", Gas: "low"},
 		op{Kind: "call", From: "C", To: "vault-destruct:self", Amt: "3c", Gas: "low"},
 	)
+	// gas-limit boundaries of value-carrying calls and creations (see vmGasClasses)
+	for _, g := range vmGasClasses {
+		o = append(o,
+			op{Kind: "call", From: "C", To: "store", Amt: "3c", Gas: g},
+			op{Kind: "call", From: "C", To: "store", Amt: "100c", Gas: g},
+			op{Kind: "call", From: "C", To: "reverter", Amt: "3c", Gas: g},
+			op{Kind: "call", From: "C", To: "vault-deposit", Amt: "3c", Gas: g},
+			op{Kind: "call", From: "C", To: "vault-destruct:D", Amt: "3c", Gas: g},
+			op{Kind: "create", From: "A", Code: "vault", Amt: "2c", Gas: g},
+			op{Kind: "create", From: "A", Code: "revinit", Amt: "2c", Gas: g},
+			op{Kind: "create", From: "A", Code: "vault", Amt: "100c", Gas: g},
+			op{Kind: "tokcall", From: "C", Tok: "coin", To: "vault-deposit", Amt: "3c", Gas: g},
+			op{Kind: "tokcall", From: "C", Tok: "gen", To: "vault-deposit", Amt: "3c", Gas: g},
+		)
+	}
+	o = append(o, op{Kind: "call", From: "C", To: "store", Amt: "0", Gas: "ig"}, op{Kind: "call", From: "C", To: "store", Amt: "0", Gas: "ig+1"},
+		op{Kind: "create", From: "A", Code: "vault", Amt: "0", Gas: "ig"}, op{Kind: "create", From: "A", Code: "vault", Amt: "0", Gas: "ig+1"})
 	for _, q := range []string{"0", "1", "250c", "max256"} {
 		o = append(o, op{Kind: "call", From: "B", To: "issuer-issue", Amt: "0", Arg: q})
 	}
@@ -171,6 +188,7 @@ func histAcctCore() []op {
 		{Kind: "call", From: "B", To: "vault-destruct:D", Amt: "1c"},
 		{Kind: "call", From: "B", To: "vault-destruct:self", Amt: "1c"},
 		{Kind: "call", From: "B", To: "issuer-issue", Amt: "0", Arg: "250c"},
+		{Kind: "call", From: "C", To: "vault-deposit", Amt: "3c", Gas: "tf"}, // admitted, cannot pay intrinsic gas + transfer fee
 	}
 }
 
